@@ -417,6 +417,23 @@ func runCompressors(r *evid.Run) {
 				}
 			}
 		}
+		// large payloads (beyond gRPC's default 4 MiB message size, which regatta's replication
+		// connection raises): one whole round trip each
+		bigSizes := []int{4<<20 - 1, 4 << 20, 4<<20 + 1, 8<<20 + 1, 16<<20 + 1}
+		par.For(int64(len(bigSizes)*2), r.Expired, func(i int64) {
+			size, kind := bigSizes[int(i)/2], int(i)%2+1
+			p := payload(size, kind)
+			z, err := compress(c, p)
+			var got []byte
+			if err == nil {
+				got, err = decompress(c, z, 0)
+			}
+			r.Outcome(fmt.Sprintf("%s big %d %d %d", name, size, kind, len(z)), true)
+			r.AddExtra("large_payload_roundtrips", 1)
+			if err != nil || !bytes.Equal(got, p) {
+				r.Violate("compressor/large-roundtrip-differs/"+name, fmt.Sprintf("payload of %d bytes (kind %d): err %v, got %d bytes", size, kind, err, len(got)), map[string]any{"kind": "compressor-large", "name": name, "size": size, "content": kind})
+			}
+		})
 		// free-running concurrent use of the pooled state (observational; the deciding exploration
 		// of pool interleavings needs the sync.Pool shim, see DESIGN.md)
 		var wg sync.WaitGroup
@@ -948,7 +965,7 @@ func runFraming(r *evid.Run) {
 
 func Run(r *evid.Run) {
 	r.Check = "c18"
-	r.Rule("(A) codec: for every message type of the four proto packages, the empty value, every single-field setting to depth 3 (every scalar kind with several values incl. large, every enum value, every oneof arm, present-empty messages, present-default optional fields, 1- and 2-element lists, map entry), every PAIR of settings, and an everything-set value: encode with the registered codec, decode into a fresh object (equal incl. presence, identical re-encoding), agree with the standard protobuf implementation in both directions; SnapshotChunk additionally into an object recycled with ResetVT after holding every other payload. (B) compressors gzip/snappy/zstd via encoding.GetCompressor: 13 sizes x 3 contents, every ordered pair through the pooled writer/reader sequentially, read back whole / 1-byte / 7-byte; plus a free-running concurrent pass. (D) pooled compressor state: 2 threads x 1-2 compress+decompress round trips over 3 payloads, 4 program pairs per compressor, pool Get/Put and every Write/Close/Read boundary are scheduling points, all interleavings up to the preemption bound; every round trip exact, no object put into a pool twice. (C) framing: command files written by the real snapshot file writer, shipped by the real snapshot.Writer.ReadFrom with EVERY placement of <= 2 cuts and every uniform chunk size, received by snapshot.Reader (WriteTo and Read), and backup.Writer -> BackupServer.Restore (backupReader), each stream also with an empty chunk before and after every chunk; received bytes and message boundaries must be identical; the upload also through a real server built by regattaserver.NewServer with the real backup.Writer for 10 chunk sizes x 3 table-name lengths (table name and bytes handed to the restore); plus an alignment sweep of multi-block snapshot files (first record of every size 0..109, then 2600 small records) written and read back message-wise so that 64 KiB block boundaries fall on every position of a record. Non-trivial: non-empty encoding / payload; distinct = distinct cases")
+	r.Rule("(A) codec: for every message type of the four proto packages, the empty value, every single-field setting to depth 3 (every scalar kind with several values incl. large, every enum value, every oneof arm, present-empty messages, present-default optional fields, 1- and 2-element lists, map entry), every PAIR of settings, and an everything-set value: encode with the registered codec, decode into a fresh object (equal incl. presence, identical re-encoding), agree with the standard protobuf implementation in both directions; SnapshotChunk additionally into an object recycled with ResetVT after holding every other payload. (B) compressors gzip/snappy/zstd via encoding.GetCompressor: 13 sizes x 3 contents, every ordered pair through the pooled writer/reader sequentially, read back whole / 1-byte / 7-byte; 5 large sizes (4 MiB - 1 .. 16 MiB + 1) x 2 contents, one whole round trip each; plus a free-running concurrent pass. (D) pooled compressor state: 2 threads x 1-2 compress+decompress round trips over 3 payloads, 4 program pairs per compressor, pool Get/Put and every Write/Close/Read boundary are scheduling points, all interleavings up to the preemption bound; every round trip exact, no object put into a pool twice. (C) framing: command files written by the real snapshot file writer, shipped by the real snapshot.Writer.ReadFrom with EVERY placement of <= 2 cuts and every uniform chunk size, received by snapshot.Reader (WriteTo and Read), and backup.Writer -> BackupServer.Restore (backupReader), each stream also with an empty chunk before and after every chunk; received bytes and message boundaries must be identical; the upload also through a real server built by regattaserver.NewServer with the real backup.Writer for 10 chunk sizes x 3 table-name lengths (table name and bytes handed to the restore); plus an alignment sweep of multi-block snapshot files (first record of every size 0..109, then 2600 small records) written and read back message-wise so that 64 KiB block boundaries fall on every position of a record. Non-trivial: non-empty encoding / payload; distinct = distinct cases")
 	runCodec(r)
 	runCompressors(r)
 	runFraming(r)
